@@ -100,18 +100,16 @@ def r1(ctx, R):
         return
     th, tc = t_has[0], t_cached[0]
     hcall = [c for c in ast.walk(th.ast) if isinstance(c, ast.Call) and call_name(c) == "has_node"][0]
-    obj = call_recv(hcall)
+    obj = norm(hcall.func.value) if isinstance(hcall.func, ast.Attribute) else None
     keyarg = hcall.args[0] if hcall.args else None
     R.slot("eval_node", {"has_node_test": norm(th.ast), "cached_test": norm(tc.ast),
                          "miss_calls": [norm(m) for m in miss]})
     R.inst("eval_node: has_node receiver is the node's object and its argument the node's key")
-    okrecv = dotted(tc.ast.value) == obj if isinstance(tc.ast, ast.Attribute) else False
+    okrecv = norm(tc.ast.value) == obj if isinstance(tc.ast, ast.Attribute) else False
     if not okrecv:
         R.bad(en, th.ast, "is_cached and has_node are tested on different objects")
-    # obj = node[OBJ], key = node[KEY]
-    def bound_to(name, idx):
-        return q.rnorm(en, ast.Name(id=name, ctx=ast.Load())) == "node[%s]" % idx
-    if not (obj and bound_to(obj, "OBJ") and isinstance(keyarg, ast.Name) and bound_to(keyarg.id, "KEY")):
+    # canonical form: obj is node[OBJ], key is node[KEY]
+    if not (obj == "node[OBJ]" and keyarg is not None and norm(keyarg) == "node[KEY]"):
         R.bad(en, th.ast, "has_node is not applied to (node[OBJ], node[KEY])")
     for m in miss:
         R.inst("eval_node: `%s` unreachable when is_cached and has_node are both true" % norm(m))
@@ -242,22 +240,11 @@ def r2(ctx, R):
     c = q.calls(ef, name="on_eval_formula")
     R.must(len(c) == 1, "_eval_formula: on_eval_formula call not found")
     R.inst("_eval_formula: on_eval_formula(node[KEY]) on node[OBJ] of the pushed node")
-    recv = call_recv(c[0])
+    recv = norm(c[0].func.value) if isinstance(c[0].func, ast.Attribute) else None
     arg = c[0].args[0] if c[0].args else None
-    binds = {}
-    for n in walk_local(ef.node):
-        if isinstance(n, ast.Assign) and len(n.targets) == 1:
-            t, v = n.targets[0], n.value
-            if isinstance(t, ast.Tuple) and isinstance(v, ast.Tuple):
-                for a, b in zip(t.elts, v.elts):
-                    if isinstance(a, ast.Name):
-                        binds[a.id] = norm(b)
-            elif isinstance(t, ast.Name):
-                binds[t.id] = norm(v)
     push = q.calls(ef, name="append", recv_endswith="callstack")
     pushed = norm(push[0].args[0]) if push and push[0].args else None
-    ok = (binds.get(recv) == "%s[OBJ]" % pushed and isinstance(arg, ast.Name)
-          and binds.get(arg.id) == "%s[KEY]" % pushed and pushed == "node")
+    ok = (pushed == "node" and recv == "node[OBJ]" and arg is not None and norm(arg) == "node[KEY]")
     if not ok:
         R.bad(ef, c[0], "the evaluated (object, key) is not the node that was pushed on the call stack")
     R.inst("_eval_formula: returns the value of on_eval_formula")
@@ -306,7 +293,7 @@ def r3(ctx, R):
             R.bad(fi, fi.node, "key is not produced by formula.signature.bind", stmt="bind")
             continue
         b = binds[0]
-        argtxt = "(" + ", ".join([unparse(a) for a in b.args] + ["**" + unparse(k.value) for k in b.keywords if k.arg is None]) + ")"
+        argtxt = "(" + ", ".join([unparse(a).replace("node[KEY]", "key") for a in b.args] + ["**" + unparse(k.value) for k in b.keywords if k.arg is None]) + ")"
         if argtxt != bindargs:
             R.bad(fi, b, "bind is not given all of the caller's arguments (%s)" % argtxt)
         pm = fi.pm
@@ -483,17 +470,7 @@ def r4(ctx, R):
             R.bad(fi, ft[0], "formula globals are not the owner's fresh namespace (`self.owner.namespace.interfaces`)")
         code = ft[0].args[0] if ft[0].args else None
         R.inst("%s: code object is the owner's current formula" % spec)
-        okc = False
-        if isinstance(code, ast.Name):
-            chain = {}
-            for n in walk_local(fi.node):
-                if isinstance(n, ast.Assign) and len(n.targets) == 1 and isinstance(n.targets[0], ast.Name):
-                    chain[n.targets[0].id] = norm(n.value)
-            c1 = chain.get(code.id, "")
-            if c1.endswith(".__code__"):
-                base = c1[: -len(".__code__")]
-                if chain.get(base) == "self.owner.formula.func" or base == "self.owner.formula.func":
-                    okc = True
+        okc = code is not None and norm(q.resolve(fi, code)) == "self.owner.formula.func.__code__"
         if not okc:
             R.bad(fi, ft[0], "refreshed function is not built from self.owner.formula.func.__code__")
         R.inst("%s: assigns self.altfunc" % spec)
